@@ -184,6 +184,9 @@ func (c19) Gen(r *simrt.Rand, idx int, tier string) *Case {
 	if len(c.L.Names) < 3 {
 		c.L = RandLayout(r, c.J, 9)
 	}
+	if idx%5 == 4 {
+		c.L = WideLayout(r, c.J)
+	}
 	switch c.Sub {
 	case "census":
 		c.Cmd = "print"
